@@ -117,7 +117,7 @@ def run(rep, repo, tier):
             aps = R.appends(attr)
             if len(aps) == 1:
                 rattr[attr] = R.field(aps[0][0].value)
-        pls = R.local_appends('project_lecturers')
+        pls = R.lecturer_of_project_appends()
         if na == 3 and len(pls) == 1:
             rattr['project_lecturers'] = R.field(pls[0][0].value)
         reader_fn = find_reader(repo)
